@@ -184,11 +184,14 @@ Definition dispatch (cmd : string) (args : list sexp) : option sexp :=
           end
       | _, _, _, _, _ => None
       end
-  | "lazy", [os; members; others; out; names; con; nones; lbs] =>
+  | "lazy", [os; members; others; out; names; con; nones; lbs; prop] =>
       match dec_opts os, dec_list dec_t members, dec_list (dec_list dec_t) others, dec_opt (dec_list dec_t) out,
             dec_absent dec_names names, dec_bool con, dec_list dec_Z nones, dec_absent (dec_list dec_nat) lbs with
       | Some o, Some members, Some others, Some out, Some names, Some con, Some nones, Some lbs =>
-          Some (enc_mres enc_lazy (of_res (lazy_apply term o (term_fn nones) con members others out names lbs)))
+          match dec_bool prop with
+          | Some prop => Some (enc_mres enc_lazy (of_res (lazy_front term o (term_fn nones) con prop members others out names lbs)))
+          | None => None
+          end
       | _, _, _, _, _, _, _, _ => None
       end
   | "ntasks", [os; con; self] =>
